@@ -24,4 +24,4 @@ Inductive pstmt : Type :=
 | SCall (fn : bytes)                   (* call of a function the translator does not know to be local and non-blocking *)
 | SHook (h : bytes)                    (* verif hook (no-op without the build tag) *)
 | SWgAdd (n : bytes) | SWgDone | SWgWait
-| SReturn.
+| SRet.
